@@ -37,9 +37,12 @@ Row(e) == /\ st.phase = "rows"
 Exit(e) == /\ st.phase = "rows" /\ e.hang = FALSE /\ e.code = 0
            /\ st.seen = st.files                                             \* exactly one row per sample file
            /\ st' = Idle
+\* beyond the listed property: a directory whose samples have none of the three supported sizes is refused -- the tool
+\* terminates and leaves no report behind (usage text: "支持单文件规模 [20 000, 1 000 000, 100 000 000]")
+Unsupported(e) == st.phase = "idle" /\ e.hang = FALSE /\ e.report_exists = FALSE /\ UNCHANGED st
 Step == /\ l <= Len(Trace)
         /\ LET e == Trace[l] IN
-             CASE e.ev = "start" -> Start(e) [] e.ev = "header" -> Header(e) [] e.ev = "row" -> Row(e) [] e.ev = "exit" -> Exit(e) [] OTHER -> FALSE
+             CASE e.ev = "start" -> Start(e) [] e.ev = "header" -> Header(e) [] e.ev = "row" -> Row(e) [] e.ev = "exit" -> Exit(e) [] e.ev = "unsupported" -> Unsupported(e) [] OTHER -> FALSE
         /\ l' = l + 1
 Spec == Init /\ [][Step]_vars
 Accepted == TLCGet("stats").diameter - 1 = Len(Trace)
